@@ -325,3 +325,82 @@ Definition stmt_soc_schur_dense : Prop :=
          = (- (eta * eta * (2 * w a * w b
                             - (if Nat.eqb a b then match a with 0 => 1 | _ => -1 end else 0))))%R.
 
+
+(** the chain closed for the generalised power cone: in the intended (Triu) matrix carrying the
+    values that [update] writes for a cone GenPow d1 d2 (q on its first d1 rows, r on its last d2),
+    the cone block is diagonal, the auxiliary 3x3 block is diagonal, and eliminating the three
+    auxiliary variables gives -mu (D + pp' - qq' - rr') *)
+Definition stmt_genpow_schur_dense : Prop :=
+  forall (P A : @csc R) (pre post : list shape) (d1 d2 : nat) (val : tag -> R) (mu : R)
+         (dg p qe re : nat -> R),
+    let shapes := pre ++ GenPow d1 d2 :: post in
+    let c := length pre in
+    let o := nc P + sum_by numel pre in
+    let pcol := nc P + nr A + sum_by pdim pre in
+    wf_input P A shapes -> (0 <= mu)%R ->
+    (forall t, d1 <= t -> qe t = 0%R) -> (forall t, t < d1 -> re t = 0%R) ->
+    (forall t, t < d1 + d2 -> val (THs c t) = gp_blockA mu dg t t) ->
+    (forall t, t < d1 -> val (TGq c t) = gp_blockB mu p qe re t 0) ->
+    (forall t, t < d2 -> val (TGr c t) = gp_blockB mu p qe re (d1 + t) 1) ->
+    (forall t, t < d1 + d2 -> val (TGp c t) = gp_blockB mu p qe re t 2) ->
+    val (TD c 0) = (-1)%R -> val (TD c 1) = (-1)%R -> val (TD c 2) = 1%R ->
+    let K := kkt_matrix_v val P A shapes Triu in
+    sym_get K pcol (pcol + 1) = 0%R /\ sym_get K pcol (pcol + 2) = 0%R /\ sym_get K (pcol + 1) (pcol + 2) = 0%R
+    /\ forall a b, a < d1 + d2 -> b < d1 + d2 ->
+         schur_elim (fun x y => sym_get K (o + x) (o + y)) (fun x k => sym_get K (o + x) (pcol + k))
+                    [sym_get K pcol pcol; sym_get K (pcol + 1) (pcol + 1); sym_get K (pcol + 2) (pcol + 2)] a b
+         = (- (mu * ((if Nat.eqb a b then dg a else 0) + p a * p b - qe a * qe b - re a * re b)))%R.
+
+
+(** ** quasi-definiteness in the recorded sign pattern *)
+Local Open Scope R_scope.
+(** finite sums and quadratic forms over index ranges *)
+Definition rsum (f : nat -> R) (n : nat) : R := fold_right Rplus 0 (map f (seq 0 n)).
+Definition qform (M : nat -> nat -> R) (x : nat -> R) (N : nat) : R :=
+  rsum (fun i => rsum (fun j => x i * M i j * x j) N) N.
+
+
+(** quasi-definiteness, block form, for layouts without sparse expansions.
+    [K] is the intended (Triu) matrix with the data values of P, A on their tags and arbitrary
+    values on the cone tags; [Kreg = sym K + eps * diag(dsigns)] is what gets factored.
+    If P is positive semidefinite and minus the (2,2) block is positive semidefinite (H >= 0), then
+    Kreg is positive definite on the coordinates with recorded sign +1 and negative definite on
+    those with recorded sign -1.  (By Vanderbei, Symmetric quasidefinite matrices, SIAM J. Optim.
+    1995, every symmetric permutation of such a matrix has an LDL' factorisation with D of
+    exactly these signs — that last step is cited, not proved here.) *)
+Definition sym_of (M : nat -> nat -> R) (i j : nat) : R := if (i <=? j)%nat then M i j else M j i.
+Definition kreg (K : @csc R) (signs : list Z) (eps : R) (i j : nat) : R :=
+  sym_get K i j + (if Nat.eqb i j then eps * IZR (nth i signs 0%Z) else 0).
+Definition stmt_quasidef_blocks : Prop :=
+  forall (P A : @csc R) (shapes : list shape) (val : tag -> R) (eps : R),
+    wf_input P A shapes -> Forall (fun s => pdim s = 0%nat) shapes -> 0 < eps ->
+    (forall k, val (TP k) = nth k (vals P) 0) -> (forall i, val (TMiss i) = 0) ->
+    let n := nc P in let m := nr A in
+    let K := kkt_matrix_v val P A shapes Triu in
+    let Kr := kreg K (signs_spec n m shapes) eps in
+    (* P >= 0 *)
+    (forall x, 0 <= qform (sym_of (get OpsR P)) x n) ->
+    (* minus the (2,2) block >= 0 *)
+    (forall z, 0 <= qform (fun a b => - sym_get K (n + a) (n + b)) z m) ->
+    (forall x, (forall i, (n <= i)%nat -> x i = 0) -> (exists i, (i < n)%nat /\ x i <> 0) ->
+               0 < qform Kr x (n + m))
+    /\ (forall z, (forall i, (i < n \/ n + m <= i)%nat -> z i = 0) -> (exists i, (n <= i < n + m)%nat /\ z i <> 0) ->
+                  qform Kr z (n + m) < 0).
+
+
+(** the sign pattern (-,...,-,-,+) of a sparse SOC block: with the values [update] writes
+    (D, v, u from the normalised scaling point w) and static regularisation eps >= 0, the principal
+    block on the cone rows and the first auxiliary variable is bounded above by -eps * I (negative
+    definite for eps > 0, negative semidefinite otherwise), and the pivot of the second auxiliary
+    variable, eta^2 + eps, is positive. [z] are the cone-row coordinates, [t] the first auxiliary. *)
+Definition stmt_soc_expansion_signs : Prop :=
+  forall (eta eps w1sq : R) (w z : nat -> R) (d' : nat) (t : R),
+    0 <= eps -> w1sq = rsum (fun a => w (S a) * w (S a)) d' -> w 0%nat = R_sqrt.sqrt (1 + w1sq) ->
+    let d := S d' in
+    rsum (fun a => (soc_blockA eta w w1sq a a - eps) * (z a * z a)) d
+    + 2 * t * rsum (fun a => soc_blockB eta w w1sq a 0 * z a) d
+    + (- (eta * eta) - eps) * (t * t)
+    <= - eps * (rsum (fun a => z a * z a) d + t * t)
+    /\ (eta <> 0 \/ 0 < eps -> 0 < eta * eta + eps).
+
+Local Close Scope R_scope.
